@@ -21,7 +21,8 @@ R = Rules(
         "sources (fixed outer codes, Uri-Host, Observe, the origin of the Proxy-Uri, _compress output whose "
         "third argument is the result of alg_symmetric.encrypt, the encrypted signature, direction and transport "
         "tuning); nothing derived from the plaintext or from other parts of the inner message reaches an outer "
-        "store except through encrypt; the outer code is POST / FETCH / the request's response style on exactly the paths RFC 8613 says.  "
+        "store except through encrypt; the outer code is POST / FETCH / the request's response style on exactly the paths RFC 8613 says; "
+        "CodeStyle.from_request is evaluated once per Code member (kit.ConcreteRunner) and must return, for code c, only a style whose request code is c.  "
         "C11.b: the external AAD array carries request_id.kid/partial_iv, on every path of unprotect that reaches decrypt the "
         "nonce inputs are the message's own when it carries a partial IV and the request's otherwise, a reused nonce comes from "
         "get_reusable_kid_and_piv which clears the reuse flag on every path that hands out a pair.  C11.c: the nonce value returned by "
@@ -29,9 +30,11 @@ R = Rules(
         "C11.d: on every path of _compress the option emitted equals the RFC 8613 section 6.1 encoding of exactly the fields present, on "
         "every returning path of _uncompress the fields returned are exactly the windows of the option the flag bits announce; reserved bits are refused.  C11.e: the "
         "exception-escape set of _extract_encrypted0/_uncompress and of the raising sites of unprotect before "
-        "decryption is inside ProtectionInvalid + NotAProtectedMessage.  C11.f: on every feasible path to decrypt a present KID / KID context was compared "
+        "decryption is inside ProtectionInvalid + NotAProtectedMessage; whether a single byte read of the option can raise IndexError is decided by the symbolic "
+        "reader (the read is a decision of the path: in bounds by the facts known when it is evaluated, or an IndexError that must meet a handler).  C11.f: on every feasible path to decrypt a present KID / KID context was compared "
         "equal and the length of what is decrypted was checked, decrypt failures always propagate, every return is dominated by "
-        "decrypt.  C11.g: every AEAD wrapper maps InvalidTag to ProtectionInvalid.  C11.h: request identifiers keep kid / partial IV verbatim; every "
+        "decrypt.  C11.g: for every concrete algorithm class the decrypt function it resolves to (own, inherited, pulled up with a per-class cipher hook) maps the "
+        "library's InvalidTag to ProtectionInvalid, wherever the protecting try statement sits.  C11.h: request identifiers keep kid / partial IV verbatim; every "
         "bounded field cut out of the option is preceded by a check that the option is long enough.  Not decided: cryptographic "
         "strength, value-level equality of the round trip, implicit flows through branch conditions, callees of "
         "unprotect other than _extract_encrypted0 (their escape sets are listed as notes only), the "
@@ -435,11 +438,25 @@ def self_calls(fi, name):
     return [c for c in walk_no_nested(fi.node) if isinstance(c, ast.Call) and chain(c.func) in ("self." + name, "cls." + name)]
 
 
+def method_of(prog, short):
+    """The function `module.Class.name` denotes: defined in the class itself or inherited (a method pulled up into a base class is
+    the same callee for every caller)."""
+    if prog.has_func(short):
+        return prog.func(short)
+    head, _, name = short.rpartition(".")
+    cq = "aiocoap." + head
+    if cq in prog.classes:
+        m = prog.lookup_method(cq, name)
+        if m is not None:
+            return m
+    return prog.func(short)  # AnchorError with the usual message
+
+
 def bound_args(prog, call, callee_short):
     """The arguments of `call` as a list in the order of the callee's parameters (positional arguments first, then keywords
     matched by parameter name): `f(a, b, c)`, `f(a, b, c=c)` and `f(c=c, a=a, b=b)` are the same call.  None when the call uses
     * / ** or a keyword that is not a positional parameter of the callee (keyword-only arguments are returned separately)."""
-    names = params(prog.func(callee_short))
+    names = params(method_of(prog, callee_short))
     out = list(call.args)
     if any(isinstance(a, ast.Starred) for a in out) or any(k.arg is None for k in call.keywords) or len(out) > len(names):
         return None, {}
@@ -785,15 +802,70 @@ def a(ctx):
             fields = tuple(norm.consteval(base.args[1]))
         except norm.NormError:
             fields = None
+    if fields is None and any((chain(b) or "").split(".")[-1] == "NamedTuple" for b in ci.node.bases):
+        # class CodeStyle(typing.NamedTuple): request: Code; response: Code -- the same tuple type, fields in declaration order
+        fields = tuple(st.target.id for st in ci.node.body if isinstance(st, ast.AnnAssign) and isinstance(st.target, ast.Name)
+                       and "ClassVar" not in ast.unparse(st.annotation))
     ctx.need(fields is not None, "CodeStyle is not a namedtuple with literal fields")
     ctx.ob("CodeStyle fields are (request, response)", fields == ("request", "response"), None, None, construct="CodeStyle fields", detail=repr(fields))
     mod = prog.module("oscore")
-    table = {}
+    CSQ = ci.qn
+    # the Code members by value (two names of one value are one code)
+    codes = {}
+    for cname, cexpr in prog.cls("numbers.codes.Code").attrs.items():
+        try:
+            cv = norm.consteval(cexpr)
+        except norm.NormError:
+            continue
+        if isinstance(cv, int) and not isinstance(cv, bool):
+            codes[cname] = cv
+    ctx.floor("integer members of numbers.codes.Code", len(codes), 10)
+    by_value = {}
+    for cname in sorted(codes):
+        by_value.setdefault(codes[cname], cname)
+
+    def code_name(e):
+        """canonical member name when the expression names a Code member (`FETCH`, `Code.FETCH`, `codes.FETCH`, `aiocoap.FETCH`)"""
+        c = chain(e)
+        if not c:
+            return None
+        q = prog.resolve_in_module(mod, c)
+        last = q.split(".")[-1]
+        if last in codes and (q.startswith("aiocoap.numbers.") or q == "aiocoap." + last):
+            return by_value[codes[last]]
+        return None
+
+    def is_codestyle(e):
+        c = chain(e)
+        return c is not None and prog.resolve_in_module(mod, c) == CSQ
+
+    # CodeStyle.<NAME> = CodeStyle(rq, rs) / CodeStyle(request=rq, response=rs) / CodeStyle._make((rq, rs)) at module level; any other
+    # value assigned to an attribute of the class there is a class-level constant (e.g. a lookup table) that from_request may read
+    table, class_consts = {}, {}
     for st in mod.tree.body:
-        if isinstance(st, ast.Assign) and len(st.targets) == 1 and isinstance(st.targets[0], ast.Attribute) and chain(st.targets[0].value) == "CodeStyle":
-            v = st.value
-            if isinstance(v, ast.Call) and chain(v.func) == "CodeStyle" and len(v.args) == 2 and not v.keywords:
-                table[st.targets[0].attr] = tuple(prog.resolve_in_module(mod, chain(x) or "?").split(".")[-1] for x in v.args)
+        pairs = []
+        if isinstance(st, ast.Assign) and len(st.targets) == 1:
+            t, v = st.targets[0], st.value
+            if isinstance(t, ast.Attribute):
+                pairs = [(t, v)]
+            elif isinstance(t, (ast.Tuple, ast.List)) and isinstance(v, (ast.Tuple, ast.List)) and len(t.elts) == len(v.elts) \
+                    and not any(isinstance(x, ast.Starred) for x in list(t.elts) + list(v.elts)):
+                pairs = [(a, b) for a, b in zip(t.elts, v.elts) if isinstance(a, ast.Attribute)]
+        for t, v in pairs:
+            if not is_codestyle(t.value):
+                continue
+            args = None
+            if isinstance(v, ast.Call) and is_codestyle(v.func) and not any(isinstance(a, ast.Starred) for a in v.args) and all(k.arg in fields for k in v.keywords):
+                byname = dict(zip(fields, v.args))
+                byname.update({k.arg: k.value for k in v.keywords})
+                args = [byname.get(f) for f in fields] if len(v.args) + len(v.keywords) == len(fields) else None
+            elif isinstance(v, ast.Call) and isinstance(v.func, ast.Attribute) and v.func.attr == "_make" and is_codestyle(v.func.value) and len(v.args) == 1 \
+                    and isinstance(v.args[0], (ast.Tuple, ast.List)) and len(v.args[0].elts) == len(fields):
+                args = list(v.args[0].elts)
+            if args is not None and all(a is not None and code_name(a) is not None for a in args):
+                table[t.attr] = tuple(code_name(a) for a in args)
+            else:
+                class_consts[t.attr] = v
     ctx.floor("CodeStyle constants", len(table), 2)
     for name, (rq, rs) in sorted(table.items()):
         ctx.ob("CodeStyle.%s pairs a request code with the response code of RFC 8613" % name, REF_CODESTYLE.get(rq) == rs, None, None,
@@ -802,52 +874,91 @@ def a(ctx):
     ff = prog.func("oscore.CodeStyle.from_request")
     fp = params(ff)
     ctx.need(len(fp) >= 1, "CodeStyle.from_request signature changed")
+    deco = [chain(d) for d in ff.node.decorator_list]
+    ctx.need("classmethod" in deco or "staticmethod" in deco, "CodeStyle.from_request is neither a classmethod nor a staticmethod")
+    clsname = ff.node.args.args[0].arg if "classmethod" in deco and ff.node.args.args and ff.node.args.args[0].arg not in fp else None
+    OTHER = "any other code"
 
-    def style_name(e):
-        return e.attr if isinstance(e, ast.Attribute) and chain(e.value) in ("cls", "CodeStyle") and e.attr in table else None
+    def is_cls(e):
+        return (isinstance(e, ast.Name) and e.id == clsname) or is_codestyle(e)
 
-    def code_name(e):
-        c = chain(e)
-        return prog.resolve_in_module(mod, c).split(".")[-1] if c else None
+    def value_of(e):
+        """('code', member) | ('style', constant name) | ('none',) for an evaluated expression, else None"""
+        if kit.is_sym(e, "code:"):
+            return ("code", e.id[len("‹code:"):-1])
+        if isinstance(e, ast.Constant) and e.value is None:
+            return ("none",)
+        if isinstance(e, ast.Attribute) and e.attr in table and is_cls(e.value):
+            return ("style", e.attr)
+        if isinstance(e, ast.Attribute) and e.attr in fields:
+            v = value_of(e.value)
+            if v is not None and v[0] == "style":
+                return ("code", table[v[1]][fields.index(e.attr)])
+        if isinstance(e, ast.Subscript) and isinstance(e.slice, ast.Constant) and isinstance(e.slice.value, int) and not isinstance(e.slice.value, bool):
+            v = value_of(e.value)
+            if v is not None and v[0] == "style" and -len(fields) <= e.slice.value < len(fields):
+                return ("code", table[v[1]][e.slice.value])
+        cn = code_name(e)
+        return ("code", cn) if cn is not None else None
 
-    # the mapping request code -> style, whether it is written as an if-chain / match (one returning path per code, decided by a
-    # comparison of the parameter with the code) or as a table indexed by the parameter
-    mapping = []  # (code name, style name, node)
-    for q in [q for q in kit.Runner(ff, prog).paths() if q.end in ("return", "fall")]:
-        v = q.value
-        ctx.need(q.end == "return", "from_request can fall off its end")
-        tbl = None
-        if isinstance(v, ast.Subscript) and isinstance(v.value, ast.Dict) and chain(v.slice) == fp[0]:
-            tbl = v.value
-        elif isinstance(v, ast.Call) and isinstance(v.func, ast.Attribute) and v.func.attr == "get" and isinstance(v.func.value, ast.Dict) and v.args and chain(v.args[0]) == fp[0]:
-            tbl = v.func.value
-        if tbl is not None:
-            for k, val in zip(tbl.keys, tbl.values):
-                ctx.need(k is not None and style_name(val) is not None, "from_request: table entry that is not code -> CodeStyle constant")
-                mapping.append((code_name(k), style_name(val), q.endnode))
-            continue
-        ctx.need(style_name(v) is not None, "from_request returns something that is not a CodeStyle constant: %s" % kit.txt(v)[:60])
-        codes = set()
-        for cnd, out, _ in q.conds:
-            if isinstance(cnd, ast.Compare) and len(cnd.ops) == 1 and isinstance(cnd.ops[0], (ast.Eq, ast.NotEq, ast.Is, ast.IsNot)):
-                l, r = cnd.left, cnd.comparators[0]
-                other = r if chain(l) == fp[0] else (l if chain(r) == fp[0] else None)
-                if other is not None and isinstance(cnd.ops[0], (ast.Eq, ast.Is)) == out:
-                    codes.add(code_name(other))
-        mapping.append((next(iter(codes)) if len(codes) == 1 else None, style_name(v), q.endnode))
-    ctx.floor("request codes mapped by CodeStyle.from_request", len(mapping), 2)
-    for code, name, node in mapping:
-        ctx.ob("from_request maps a request code to the style with that request code", code == table[name][0], ff, node, detail="code %s -> style %s %s" % (code, name, table[name]),
+    def global_value(name):
+        # a module-level table (`_STYLES = {FETCH: ..}`); names of functions, classes and imports are not values to substitute
+        if name in mod.imports or prog.resolve_in_module(mod, name) in prog.classes or prog.resolve_in_module(mod, name) in prog.funcs:
+            return None
+        try:
+            v = prog.module_const("oscore", name)
+        except AnchorError:
+            return None
+        return v if isinstance(v, (ast.Dict, ast.Tuple, ast.List, ast.Set, ast.DictComp, ast.ListComp, ast.SetComp)) else None
+
+    def attr_value(e):
+        return class_consts.get(e.attr) if e.attr in class_consts and is_cls(e.value) else None
+
+    # The mapping request code -> style is obtained by *evaluating* from_request once per Code member and once for a code that is
+    # none of them (kit.ConcreteRunner: comparisons, membership tests, table look-ups, loops and comprehensions over the known
+    # styles are decided on the concrete argument).  Necessary condition: whatever is returned for code c is a CodeStyle constant
+    # whose request code is c, and each constant's own request code does get it returned.  An if-chain, a match statement, a dict
+    # / .get() table, a loop over the styles comparing `style.request`, `next(s for s in styles if ..)` are all the same function.
+    mapping = {}    # (code, style name) -> return node
+    returned = set()
+    universe = sorted(set(by_value.values())) + [OTHER]
+    for c in universe:
+        E = kit.ConcreteRunner(ff, prog, {fp[0]: kit.sym("code:" + c)}, value_of, global_value, attr_value)
+        for q in E.paths():
+            if q.end not in ("return", "fall"):
+                continue
+            ctx.need(q.end == "return", "from_request can fall off its end")
+            # a decision that had to be *chosen* means the path is not the evaluation of from_request(c): refuse instead of
+            # reporting what an infeasible path returns
+            ctx.need(not q.facts, "from_request branches on a condition the rule cannot evaluate for a concrete request code: %s" % _describe(q)[:120])
+            v = value_of(q.value)
+            ctx.need(v is not None and v[0] == "style", "from_request returns something that is not a CodeStyle constant: %s" % kit.txt(q.value)[:60])
+            mapping.setdefault((c, v[1]), q.endnode)
+            returned.add(c)
+    for (c, name), node in sorted(mapping.items(), key=lambda kv: kv[0]):
+        ctx.ob("from_request maps a request code to the style with that request code", c == table[name][0], ff, node, detail="code %s -> style %s %s" % (c, name, table[name]),
                construct="from_request: %s -> %s" % (table[name][0], name))
+    for name in sorted(table):
+        if not any(k == (table[name][0], name) for k in mapping):
+            ctx.ob("from_request hands out every code style for its own request code", False, ff, ff.node, detail="from_request(%s) never returns CodeStyle.%s" % (table[name][0], name),
+                   construct="from_request: %s -> %s" % (table[name][0], name))
     init = prog.func("oscore.RequestIdentifiers.__init__")
     ip = params(init)
     ctx.need(len(ip) >= 4, "RequestIdentifiers.__init__ signature changed")
+
+    def is_from_request_of(e, pname):
+        """CodeStyle.from_request(<pname>), the argument given by position or by keyword"""
+        if not (isinstance(e, ast.Call) and isinstance(e.func, ast.Attribute) and e.func.attr == "from_request" and is_codestyle(e.func.value)):
+            return False
+        args, _ = bound_args(prog, e, "oscore.CodeStyle.from_request")
+        return args is not None and len(args) == 1 and isinstance(args[0], ast.Name) and args[0].id == pname
+
     bad, node = [], init.node
     for q in [q for q in kit.Runner(init, prog).paths() if q.end in ("return", "fall")]:
         st = [ev for ev in q.events if ev[0] == "store" and chain(ev[1]) == "self.code_style"]
         if not st:
             bad.append("self.code_style is not stored on the path [%s]" % _describe(q))
-        elif match("CodeStyle.from_request(%s)" % ip[3], st[-1][2]) is None:
+        elif not is_from_request_of(st[-1][2], ip[3]):
             bad.append("stored value: %s" % kit.txt(st[-1][2])[:80])
             node = st[-1][3]
     ctx.ob("RequestIdentifiers derives its code style from the request code", not bad, init, node, detail=bad[0] if bad else None,
@@ -1480,7 +1591,7 @@ def _reader_results(ctx, prog, consts):
     ctx.need(bool(rets) and not [p for p in paths if p.end in ("fall", "cut")], "_uncompress has paths that do not end in return or raise")
     resv = REF_FLAGS["COMPRESSION_BITS_RESERVED"]
     res = {"fi": rf, "layout": [], "reserved_ret": [], "reserved_raise": [], "n_reserved_raise": 0, "shape": [], "bounds": [], "bounded_fields": set(), "n": len(rets),
-           "node": rets[0].endnode}
+           "node": rets[0].endnode, "reads": {}}
 
     def flag(st, m):
         if st["empty"] is True:
@@ -1492,6 +1603,17 @@ def _reader_results(ctx, prog, consts):
             return False
         return None
 
+    # every single-byte read of the option that is evaluated on some path (also on paths that end in a raise): site -> [node, in
+    # bounds on every path, first counter-example]
+    for p in paths:
+        for site, ok, why in p.state["reads"]:
+            res["reads"].setdefault(id(site), [site, True, None])
+        # an out-of-bounds read that no handler of the function caught: the path leaves with the IndexError of that read
+        bad = [r for r in p.state["reads"] if not r[1]]
+        if p.end == "raise" and p.exc == "IndexError" and bad and not isinstance(p.endnode, ast.Raise):
+            rec = res["reads"][id(bad[-1][0])]
+            if rec[1]:
+                rec[1], rec[2] = False, "%s [%s]" % (bad[-1][2], _describe(p))
     for p in paths:
         if p.end == "raise" and flag(p.state, resv) is True:
             res["n_reserved_raise"] += 1
@@ -1623,11 +1745,33 @@ def e(ctx):
         ci = prog.cls(cls)
         ctx.ob("%s derives from %s" % (cls, base), prog.is_subclass(ci.qn, base), None, None, construct="class %s" % cls)
     EA = EscapeAnalysis(prog)
+    # IndexError of a single-byte read `W[i]` of the option in _uncompress.  The engine decides such a site by looking for a
+    # dominating len()/truthiness test *of the same local*; a read through another local that holds a window of the same bytes
+    # (`s, tail = tail[:1], tail[1:]` ... `s[0]`, a cursor, an absolute offset guarded by one merged length check) is the same
+    # fact in a different spelling.  For these sites the verdict is therefore taken from the symbolic reader (kit.OptionReader,
+    # the executor C11.d/C11.h use): on every path, when the read is evaluated, the integer facts of the path must imply
+    # 0 <= offset < len(option) (and < the window's end).  A site proven on every path on which it is evaluated cannot raise
+    # IndexError (EA.dead_nodes); a site refuted on some path is reported here, whatever the engine's syntactic test says.
+    # Sites the reader never evaluates keep the engine's verdict.
+    rf = prog.func(CU + "_uncompress")
+    reads, reader_refusal = {}, None
+    try:
+        reads = _reader_results(ctx, prog, module_int_consts(prog, "oscore"))["reads"]
+    except AnalysisError as err:
+        reader_refusal = err
+    for site, ok, why in reads.values():
+        EA.dead_nodes.add(id(site))
+        if not ok:
+            ctx.ob("decoding the OSCORE option of an unauthenticated message fails only with ProtectionInvalid (or NotAProtectedMessage)", False, rf,
+                   stmt_of(rf, site) if cfg_of(rf).locate(site) else site, detail="IndexError can escape from `%s`: %s" % (stmt_text(site, 80), why))
     seen = set()
     n_allowed = 0
     for short in (CU + "_uncompress", CU + "_extract_encrypted0"):
         fi = prog.func(short)
         escs = EA.escapes(fi)
+        if reader_refusal is not None and any(x.cls == "IndexError" and x.func == rf.short for x in escs):
+            # the engine's same-local test found no guard and the semantic decision is not available: refuse rather than guess
+            raise reader_refusal
         ctx.floor("escapes of %s" % short, len(escs), 1)
         for esc in sorted(escs, key=repr):
             if esc.key() in seen:
@@ -1741,62 +1885,144 @@ def _raise_class(prog, fi, rz):
     return qn(prog, fi, rz.exc.func if isinstance(rz.exc, ast.Call) else rz.exc)
 
 
+def _protecting_handlers(ctx, prog, fi, node, depth=0):
+    """[(function, ExceptHandler)] innermost first: the handlers an exception raised at `node` meets before it leaves `fi`.
+    A try statement protects what is (at any depth) inside its body; a `with` block whose context manager is a generator
+    function of the package decorated with contextlib.contextmanager protects its body with the handlers around the generator's
+    `yield`; any other context manager around the site, and a generator with several yields, is outside the rule's vocabulary."""
+    cfg = cfg_of(fi)
+    out = []
+    child, par = node, cfg.parent.get(id(node))
+    while par is not None and child is not fi.node:
+        if isinstance(par, ast.Try) and any(child is x for x in par.body):
+            out += [(fi, h) for h in par.handlers]
+        elif isinstance(par, (ast.With, ast.AsyncWith)) and any(child is x for x in par.body):
+            for it in reversed(par.items):
+                cm = it.context_expr
+                target = None
+                if isinstance(cm, ast.Call):
+                    q = qn(prog, fi, cm.func)
+                    if q in prog.funcs:
+                        target = prog.funcs[q]
+                    elif isinstance(cm.func, ast.Attribute) and chain(cm.func.value) in ("self", "cls") and fi.cls is not None:
+                        target = prog.lookup_method(fi.cls.qn, cm.func.attr)
+                ctx.need(target is not None and depth < 3, "the library decryption in %s sits in a `with %s` block whose context manager the rule cannot interpret" % (fi.short, stmt_text(cm, 60)))
+                decos = [prog.resolve_in_module(target.module, chain(d) or "?") for d in target.node.decorator_list]
+                ys = [y for y in walk_no_nested(target.node) if isinstance(y, (ast.Yield, ast.YieldFrom))]
+                ctx.need(any(d.split(".")[-1] == "contextmanager" for d in decos) and len(ys) == 1 and isinstance(ys[0], ast.Yield),
+                         "%s used as a context manager around the library decryption is not a single-yield contextlib.contextmanager generator" % target.short)
+                out += _protecting_handlers(ctx, prog, target, ys[0], depth + 1)
+        child, par = par, cfg.parent.get(id(par))
+    return out
+
+
+def _catches_invalid_tag(prog, hfi, h):
+    if h.type is None:
+        return True
+    names = list(h.type.elts) if isinstance(h.type, ast.Tuple) else [h.type]
+    qs = [prog.resolve_in_module(hfi.module, chain(x) or "?") for x in names]
+    return any(q.split(".")[-1] in ("InvalidTag", "Exception", "BaseException") for q in qs)
+
+
 @R.clause("C11.g", "every AEAD wrapper maps InvalidTag to ProtectionInvalid; AES_CBC.decrypt raises only ProtectionInvalid; all algorithms use a checked wrapper")
 def g(ctx):
+    """Decided per *concrete* algorithm class A (a subclass of SymmetricEncryptionAlgorithm that has a COSE `value`): the function
+    A.decrypt resolves to along the MRO -- defined in A, in its family class, or pulled up into a common base with a per-class hook
+    that builds the library cipher -- must be a checked wrapper: every call `X.decrypt(..)` on a cipher object of the cryptography
+    library (constructed in place, named first, passed through an expanded helper, or produced by a hook method `cls.h(..)` which for
+    A returns such a constructor) is protected by a handler that catches InvalidTag, no handler on the way can complete normally
+    (a swallowed tag failure would yield a plaintext or None), every raise reachable from these handlers is a ProtectionInvalid, and
+    the wrapper returns what the library returned.  Where the try statement sits (around the call, around a block containing it,
+    in a context manager) and whether the three families share the code is immaterial."""
     prog = ctx.prog
-    checked = set()
-    for cls in AEAD_WRAPPERS:
-        fi = prog.func(cls + ".decrypt")
-        checked.add(fi.qn)
-        cfg = cfg_of(fi)
-        def lib_cipher(e):
-            # the library cipher object: constructed in place or earlier and named (resolved through def-use)
+    cbc = prog.func("oscore.AES_CBC.decrypt")
+    concrete = []
+    for sub in sorted(prog.subclasses("aiocoap.oscore.SymmetricEncryptionAlgorithm")):
+        if "value" in prog.classes[sub].attrs:  # others are abstract family classes
+            concrete.append(sub)
+    ctx.floor("concrete symmetric algorithms", len(concrete), 12)
+    wrappers = {}   # decrypt function -> [concrete classes using it]
+    for sub in concrete:
+        m = prog.lookup_method(sub, "decrypt")
+        abstract = m is not None and any((chain(d) or "").split(".")[-1] == "abstractmethod" for d in m.node.decorator_list)
+        ctx.ob("algorithm %s decrypts through a checked wrapper" % sub.split(".")[-1], m is not None and not abstract, None, None,
+               construct="%s.decrypt -> %s" % (sub.split(".")[-1], m.short if m else None))
+        if m is not None and not abstract and m.qn != cbc.qn:
+            wrappers.setdefault(m.qn, (m, []))[1].append(sub)
+    ctx.floor("distinct AEAD decrypt wrappers", len(wrappers), 1)
+    n_lib = 0
+    for _, (fi, users) in sorted(wrappers.items()):
+        name = fi.short[:-len(".decrypt")] if fi.short.endswith(".decrypt") else fi.short
+        extra = [chain(d) or ast.unparse(d) for d in fi.node.decorator_list if (chain(d) or "").split(".")[-1] not in ("classmethod", "staticmethod")]
+        ctx.need(not extra, "%s is wrapped by a decorator the rule cannot interpret: %s" % (fi.short, extra))
+
+        def lib_ctor(e, where):
+            e = resolve_local(where.node, e)
+            return isinstance(e, ast.Call) and (qn(prog, where, e.func) or "").startswith(LIB_AEAD)
+
+        def hook_of(e):
             e = resolve_local(fi.node, e)
-            return isinstance(e, ast.Call) and (qn(prog, fi, e.func) or "").startswith(LIB_AEAD)
-        lib = [c for c in walk_no_nested(fi.node) if isinstance(c, ast.Call) and isinstance(c.func, ast.Attribute) and c.func.attr == "decrypt" and lib_cipher(c.func.value)]
-        ctx.floor("library decrypt calls in %s.decrypt" % cls, len(lib), 1)
+            if isinstance(e, ast.Call) and isinstance(e.func, ast.Attribute) and chain(e.func.value) in ("self", "cls"):
+                return e.func.attr
+            return None
+
+        lib = []
+        for c in walk_no_nested(fi.node):
+            if not (isinstance(c, ast.Call) and isinstance(c.func, ast.Attribute) and c.func.attr == "decrypt"):
+                continue
+            if lib_ctor(c.func.value, fi):
+                lib.append(c)
+                continue
+            hk = hook_of(c.func.value)
+            if hk is not None and all(prog.lookup_method(u, hk) is None and prog.class_attr(u, hk)[0] is not None for u in users):
+                # `cls.LIB(key)` with a class attribute that names the library cipher class in every concrete class using the wrapper
+                if all((prog.resolve_in_module(fi.module, chain(prog.class_attr(u, hk)[0]) or "?")).startswith(LIB_AEAD) for u in users):
+                    lib.append(c)
+                continue
+            if hk is not None and all(prog.lookup_method(u, hk) is not None for u in users):
+                # the cipher comes from a per-class hook: for every concrete class that uses this wrapper the hook must hand out a
+                # library cipher on every return
+                good = True
+                for u in users:
+                    hf = prog.lookup_method(u, hk)
+                    rets = [r for r in walk_no_nested(hf.node) if isinstance(r, ast.Return)]
+                    good = good and bool(rets) and all(r.value is not None and lib_ctor(r.value, hf) for r in rets)
+                if good:
+                    lib.append(c)
+        ctx.floor("library decrypt calls in %s" % fi.short, len(lib), 1)
+        n_lib += len(lib)
         for c in lib:
-            st = stmt_of(fi, c)
-            par = cfg.parent.get(id(st))
-            handlers = par.handlers if isinstance(par, ast.Try) and any(st is s for s in par.body) else []
-            catching = []
-            for h in handlers:
-                names = [] if h.type is None else ([h.type] if not isinstance(h.type, ast.Tuple) else list(h.type.elts))
-                qs = [prog.resolve_in_module(fi.module, chain(x) or "?") for x in names]
-                if h.type is None or any(q.split(".")[-1] in ("InvalidTag", "Exception", "BaseException") for q in qs):
-                    catching.append(h)
-            ctx.ob("the library's InvalidTag is caught around the decryption", bool(catching), fi, c, construct="%s.decrypt: handler for InvalidTag" % cls)
-            for h in handlers:
-                hn = cfg.loc1(h)
-                reach = cfg.reach({hn}, include_src=True)
-                ctx.ob("a failed tag check never yields a plaintext (the handler cannot reach a normal return)", cfg.exit not in reach, fi, h,
-                       construct="%s.decrypt: except %s" % (cls, ast.unparse(h.type) if h.type is not None else ""))
-                rz = [cfg.nodes[n].ast for n in reach if cfg.nodes[n].kind == "raise"]
-                bad = [r for r in rz if not (_raise_class(prog, fi, r) in prog.classes and prog.is_subclass(_raise_class(prog, fi, r), PI))]
-                ctx.ob("the handler raises ProtectionInvalid", bool(rz) and not bad, fi, bad[0] if bad else h,
-                       construct="%s.decrypt: %s" % (cls, stmt_text(bad[0]) if bad else "raise ProtectionInvalid"))
-            for r in [n for n in walk_no_nested(fi.node) if isinstance(n, ast.Return)]:
-                v = resolve_local(fi.node, r.value) if r.value is not None else None
-                ctx.ob("the wrapper returns what the library decrypted", v is c, fi, r, construct="%s.decrypt: %s" % (cls, stmt_text(r)))
+            handlers = _protecting_handlers(ctx, prog, fi, stmt_of(fi, c))
+            catching = [(hfi, h) for hfi, h in handlers if _catches_invalid_tag(prog, hfi, h)]
+            ctx.ob("the library's InvalidTag is caught around the decryption", bool(catching), fi, c, construct="%s.decrypt: handler for InvalidTag" % name)
+            for hfi, h in handlers:
+                hcfg = cfg_of(hfi)
+                hn = hcfg.loc1(h)
+                reach = hcfg.reach({hn}, include_src=True)
+                ctx.ob("a failed tag check never yields a plaintext (the handler cannot reach a normal return)", hcfg.exit not in reach, hfi, h,
+                       construct="%s.decrypt: except %s" % (name, ast.unparse(h.type) if h.type is not None else ""))
+                rz = [hcfg.nodes[n].ast for n in reach if hcfg.nodes[n].kind == "raise"]
+                bad = []
+                for r in rz:
+                    rc = _raise_class(prog, hfi, r)
+                    if rc is None and r.exc is not None:
+                        rc = _raise_class(prog, hfi, ast.Raise(exc=resolve_local(hfi.node, r.exc), cause=None))
+                    if not (rc in prog.classes and prog.is_subclass(rc, PI)):
+                        bad.append(r)
+                ctx.ob("the handler raises ProtectionInvalid", bool(rz) and not bad, hfi, bad[0] if bad else h,
+                       construct="%s.decrypt: %s" % (name, stmt_text(bad[0]) if bad else "raise ProtectionInvalid"))
+        for r in [n for n in walk_no_nested(fi.node) if isinstance(n, ast.Return)]:
+            v = resolve_local(fi.node, r.value) if r.value is not None else None
+            ctx.ob("the wrapper returns what the library decrypted", any(v is c for c in lib), fi, r, construct="%s.decrypt: %s" % (name, stmt_text(r)))
+    ctx.floor("library decrypt calls in the AEAD wrappers", n_lib, 1)
     EA = EscapeAnalysis(prog)
-    fi = prog.func("oscore.AES_CBC.decrypt")
-    checked.add(fi.qn)
+    fi = cbc
     escs = EA.escapes(fi)
     ctx.floor("raising sites of AES_CBC.decrypt", len(escs), 2)
     for esc in sorted(escs, key=repr):
         nodes = _origin_nodes(fi, esc) if esc.func == fi.short else []
         ctx.ob("AES_CBC.decrypt fails only with ProtectionInvalid", esc.cls in prog.classes and prog.is_subclass(esc.cls, PI), fi, stmt_of(fi, nodes[0]) if nodes else fi.node,
                detail="%s can escape from `%s`" % (esc.cls, esc.text))
-    n = 0
-    for sub in prog.subclasses("aiocoap.oscore.SymmetricEncryptionAlgorithm"):
-        ci = prog.classes[sub]
-        if "value" not in ci.attrs:
-            continue  # abstract family class
-        n += 1
-        m = prog.lookup_method(sub, "decrypt")
-        ctx.ob("algorithm %s decrypts through a checked wrapper" % sub.split(".")[-1], m is not None and m.qn in checked, None, None,
-               construct="%s.decrypt -> %s" % (sub.split(".")[-1], m.short if m else None))
-    ctx.floor("concrete symmetric algorithms", n, 12)
 
 
 @R.clause("C11.s", "sibling sweep: overrides of the protect/unprotect customisation hooks (reported, not decided)", tier="thorough")
@@ -1909,3 +2135,11 @@ R.seed("C11.d", F_OS, "        if pivsz:\n            if len(tail) < pivsz:", " 
 R.seed("C11.f", F_OS, "        if unprotected.pop(COSE_KID, self.recipient_id) != self.recipient_id:", "        if is_response and unprotected.pop(COSE_KID, self.recipient_id) != self.recipient_id:",
        "the KID is compared for responses only")
 R.seed("C11.h", F_OS, "            if len(tail) - 1 < s:\n", "            if len(tail) < s:\n", "the kid context bound forgets the length byte")
+# seeds for the second hardening round: from_request is evaluated per request code, byte reads of the option are decisions of the reader
+R.seed("C11.a", F_OS, "        if request == FETCH:\n            return cls.FETCH_CONTENT\n", "        if request == FETCH:\n            return cls.POST_CHANGED\n", "a FETCH request gets the POST/2.04 code style")
+R.seed("C11.a", F_OS, "        elif request == POST:\n            return cls.POST_CHANGED\n        else:\n            raise ValueError", "        else:\n            return cls.POST_CHANGED\n            raise ValueError",
+       "every request code other than FETCH is given the POST/2.04 code style instead of being refused")
+R.seed("C11.e", F_OS, '            if not tail:\n                raise DecodeError("Context hint announced but not present")\n', "", "the length byte of the kid context is read without a check that it is there: IndexError instead of a protection error")
+R.seed("C11.e", F_OS, "            if not tail:\n", "            if len(tail) < 0:\n", "a length test of the right local that can never fire: the read of the kid context length byte can still raise IndexError")
+R.seed("C11.e", F_OS, '        if option_data == b"":\n            firstbyte = 0\n        else:\n            firstbyte = option_data[0]\n            tail = option_data[1:]\n', "        firstbyte = option_data[0]\n        tail = option_data[1:]\n",
+       "an empty OSCORE option raises IndexError")
